@@ -29,6 +29,10 @@ func init() {
 		}
 		panic("nd method")
 	}
+	execs["stdnormal"] = func(a []Tok) string {
+		stats.StdNormal = stats.NormalDist{Mu: a[0].F(), Sigma: a[1].F()}
+		return "set"
+	}
 	execs["td"] = func(a []Tok) string {
 		d := stats.TDist{V: a[0].F()}
 		switch a[1].Atom {
@@ -101,6 +105,52 @@ func execMX(a []Tok) string {
 
 func genC05(w *bufio.Writer, tier string, rng *rand.Rand) {
 	n := pick(tier, 6000, 200000)
+	// dictionary: constants of the reachable code as standardized positions, probabilities and parameters
+	for _, z := range dictFloats(rng, pick(tier, 80, 2000)) {
+		mu, sg := (rng.Float64()*2-1)*[]float64{1, 100, 1e6}[rng.Intn(3)], logUniform(rng, 1e-6, 1e6)
+		for _, ms := range [][2]float64{{0, 1}, {mu, sg}, {float64(rng.Intn(200) - 100), float64(1 + rng.Intn(20))}} {
+			if math.Abs(z) <= 45 {
+				fmt.Fprintf(w, "nd %s %s cdf %s\n", fmtF(ms[0]), fmtF(ms[1]), fmtF(ms[0]+z*ms[1]))
+				fmt.Fprintf(w, "nd %s %s pdf %s\n", fmtF(ms[0]), fmtF(ms[1]), fmtF(ms[0]+z*ms[1]))
+			}
+			if z > 0 && z < 1 {
+				fmt.Fprintf(w, "nd %s %s inv %s\n", fmtF(ms[0]), fmtF(ms[1]), fmtF(z))
+			}
+		}
+		a := math.Abs(z)
+		if a >= 0.1 && a <= 1e4 {
+			fmt.Fprintf(w, "td %s grid %s\n", fmtF(a), fmtFs([]float64{-40, -3, -1, -1e-7, 0, 1e-7, 1, 3, 40}))
+		}
+		if a <= 1e6 && a > 0 {
+			v := []float64{1, 2, 3, 0.5, 7.5, 30, 171, 400}[rng.Intn(8)]
+			fmt.Fprintf(w, "td %s grid %s\n", fmtF(v), fmtFs([]float64{-a, 0, a}))
+			fmt.Fprintf(w, "td %s grid %s\n", fmtF(v), fmtFs([]float64{-a * math.Sqrt(v), 0, a * math.Sqrt(v)}))
+		}
+	}
+	// the exported package variable StdNormal reassigned (and restored) around ordinary calls in a fresh
+	// process: no NormalDist, TDist or DeltaDist result depends on it
+	for h := 0; h < pick(tier, 12, 200); h++ {
+		mu, sg := float64(rng.Intn(40)-20), float64(1+rng.Intn(9))
+		if rng.Intn(3) == 0 {
+			mu, sg = (rng.Float64()*2-1)*100, logUniform(rng, 1e-3, 1e3)
+		}
+		fmt.Fprintf(w, "{{\nstdnormal %s %s\n", fmtF(mu), fmtF(sg))
+		for q := 0; q < 6; q++ {
+			m2, s2 := mu, sg
+			if rng.Intn(3) == 0 {
+				m2, s2 = []float64{0, 1, -3}[rng.Intn(3)], []float64{1, 2, 0.5}[rng.Intn(3)]
+			}
+			z := (rng.Float64()*2 - 1) * 4
+			fmt.Fprintf(w, "nd %s %s %s %s\n", fmtF(m2), fmtF(s2), []string{"pdf", "cdf"}[rng.Intn(2)], fmtF(m2+z*s2))
+			if rng.Intn(3) == 0 {
+				fmt.Fprintf(w, "nd %s %s inv %s\n", fmtF(m2), fmtF(s2), fmtF(rng.Float64()))
+			}
+			if rng.Intn(4) == 0 {
+				fmt.Fprintf(w, "td %s grid %s\n", fmtF(float64(1+rng.Intn(30))), fmtFs([]float64{-2, -0.5, 0, 0.5, 2}))
+			}
+		}
+		fmt.Fprintf(w, "stdnormal %s %s\n}}\n", fmtF(0), fmtF(1))
+	}
 	for k := 0; k < n; k++ {
 		mu := (rng.Float64()*2 - 1) * []float64{0, 1, 100, 1e6}[rng.Intn(4)]
 		sg := logUniform(rng, 1e-6, 1e6)
